@@ -8,7 +8,7 @@ NA = json.load(open(os.path.join(V, "lib", "not_applicable.json")))
 checks, na = [], []
 for p in props:
     f = os.path.join(V, "lib", "props", p.lower() + ".py")
-    if not os.path.exists(f):
+    if not os.path.exists(f) or p in NA:
         na.append({"property_id": p, "reason": NA.get(p, "no check is registered for this property yet (model and theorems not written); nothing is claimed")})
         continue
     m = importlib.import_module("props." + p.lower()).META
